@@ -1,23 +1,23 @@
 SPECIFICATION Spec
 CONSTANTS
   Matching = "identity"
-  MinRows = 2
-  MaxRows = 3
+  MinRows = 4
+  MaxRows = 5
   MaxOutside = 1
-  L1 = {"a", "k", "z"}
+  L1 = {"a", "k", "m", "z"}
   L2 = {"p", "q"}
-  FESeqs <- FE_12a
-  FeatSeqs <- FT_two
-  SepSeqs <- SEP_some
-  StateSet = {"S1", "S2"}
-  CenterSet = {FALSE, TRUE}
+  FESeqs <- FE_1
+  FeatSeqs <- FT_x
+  SepSeqs <- SEP_none
+  StateSet = {"S1"}
+  CenterSet = {FALSE}
   NoInterceptToo = FALSE
   Callers = {"pred"}
   SelMode = "all"
-  WithNA = TRUE
+  WithNA = FALSE
   ExtraSet <- EX_none
   Export = TRUE
-  SampleMod = 8
+  SampleMod = 1
 INVARIANT NoRaise
 INVARIANT DisciplineHolds
 INVARIANT SameColumns
